@@ -242,15 +242,11 @@ class _Generator(Generator):
                     default_variable = canonical(member.name) + '_default'
 
                     encode_lines += [
-                        'encoder_append_bool(encoder_p, (memcmp(src_p->{}{}.buf, {}, sizeof({})) != 0) ||'.format(
-                            self.location_inner('', '.'),
-                            canonical(member.name),
-                            default_variable,
-                            default_variable),
-                        '                               (src_p->{}{}.length != sizeof({})));'.format(
-                            self.location_inner('', '.'),
-                            canonical(member.name),
-                            default_variable)
+                        'encoder_append_bool(encoder_p, {});'.format(
+                            self.format_buffer_not_default_condition(
+                                self.location_inner('', '.') + canonical(member.name),
+                                default_variable,
+                                self.get_member_checker(checker, member.name)))
                     ]
                 else:
                     encode_lines.append(
